@@ -337,10 +337,21 @@ def roundtrip(shapes, formats):
         try:
             path = os.path.join(tmp, "m." + fmt)
             exp = expected(fmt, mesh, E, export_edges)
+            ignore = None
+            if fmt in ("obj", "mesh", "geogram_ascii") and hasattr(mesh, "faces") and not hasattr(mesh, "cells") and export_edges:
+                # export switch of save(): a surface written without its faces is its wireframe (every edge), without its
+                # edges it is the same surface (edges are rebuilt from the faces on loading)
+                ignore = [None, {"faces"}, {"edges"}][sx.choice("ignore_elements", 3)]
+                if ignore == {"faces"}:
+                    exp = dict(edges=_ints(mesh.edges), faces=[], cells=[])
+                    tag = tag[:-1] + ", saved with ignore_elements={'faces'}]"
+                elif ignore == {"edges"}:
+                    exp = dict(exp, edges=[])
+                    tag = tag[:-1] + ", saved with ignore_elements={'edges'}]"
             with contextlib.ExitStack() as st:
                 _rebind_importers(sx, st)
                 try:
-                    M.mesh.save(mesh, path)
+                    M.mesh.save(mesh, path, ignore_elements=ignore) if ignore else M.mesh.save(mesh, path)
                 except Exception as e:
                     sx.check(False, "save raised" + tag, detail=repr(e))
                     return
